@@ -28,8 +28,8 @@ from fjverif.stlmon.harness import Spec, Var, boundary_value
 R = Optional[Tuple[Dict[str, int], Optional[str]]]
 
 HIDDEN: List[Var] = [
-    Var('add_carry', 'field', 1, label='hex.add.dst', bit_offset=8, hidden=True),
-    Var('sub_carry', 'field', 1, label='hex.sub.dst', bit_offset=8, hidden=True),
+    Var('add_carry', 'field', 1, label='hex.add.dst', bit_offset=8, hidden=True, stale_ok=True),
+    Var('sub_carry', 'field', 1, label='hex.sub.dst', bit_offset=8, hidden=True, stale_ok=True),
     Var('mul_dst', 'field', 4, label='hex.mul.dst', bit_offset=0, hidden=True),
     Var('mul_carry', 'field', 4, label='hex.mul.add_carry_dst', bit_offset=0, hidden=True),
     Var('tables_res', 'hex', 1, label='hex.tables.res', hidden=True),
